@@ -2,11 +2,12 @@
    Directives: ExtrOcamlBasic only (bool, option, list, prod, unit, sumbool ->
    OCaml's; nat, N, positive, string, ascii stay extracted inductives). *)
 From Coq Require Import Extraction ExtrOcamlBasic.
-From O1722 Require Import Spec Views LegacySpec AccModel VssModel Oracle.
+From O1722 Require Import Spec Views LegacySpec AccModel VssModel ExCan ExListeners Oracle.
 From O1722.Generated Require Import Tables.
 Extraction Language OCaml.
 Extraction "oracle_core.ml" m_getter m_setter m_init m_rawget m_rawset s_get s_set s_init m_helper
   all_specs canonical_header spec_extract spec_insert cfg view_groups m_legacy legacy_api
   m_can_create m_can_finalize m_can_set_payload m_can_payload_length s_can_create
   m_vss_pad m_vss_calc m_vss_set_path m_vss_get_path m_vss_set_data m_vss_get_data m_strs_pack m_strs_count m_strs_unpack
+  m_can_listener m_talker_packet m_hello_recv m_vss_recv m_aaf_recv m_cvf_recv m_crf_recv cstate0
   s_vss_pad s_vss_set_path s_vss_set_data s_vss_calc s_vss_get_path s_vss_get_data s_strs_pack s_strs_unpack vss_kind.
